@@ -37,11 +37,11 @@ type mconn struct {
 	accepted bool
 }
 
-const ruleC11Seq = "sequential phase on a real loopback socket: listener with backlog from {1,2,4,128}, accept filter from {none, first byte != 'X'}, batch reading {off, size 2, size 8}; 1..6 remote sockets (same IP, different ports); steps send(remote, size 9..8192 or empty, first byte 'X' or not), burst (the read loop is parked inside the accept filter by a gate datagram while 2..6 datagrams, with runs of one remote, are sent back to back, so that they are dispatched from one batch), accept, read, close, send-again-after-close; after every send a marker datagram from an always-accepted remote is sent and read back, which (single-threaded FIFO read loop) proves the earlier datagram has been dispatched, so refusals are decidable without sleeping; model: remote -> connection/backlog/queue; oracle: Accept returns the connections in creation order with the right RemoteAddr, every Read returns exactly the next datagram of that remote, byte-identical, nothing on another connection, filtered or overflowing datagrams create nothing (verified at the end: the backlog holds exactly the model's connections), after Close a new datagram creates a fresh connection; non-trivial = >=2 remotes interleaved and at least one of close-then-reconnect, backlog overflow, filter refusal; distinct by hash of config + steps"
+const ruleC11Seq = "sequential phase on a real loopback socket: listener with backlog from {1,2,4,128}, accept filter from {none, first byte != 'X'}, batch reading {off, size 2, size 8}; 1..6 remote sockets (same IP, different ports); steps send(remote, size 9..8192 or empty, first byte 'X' or not), burst (the read loop is parked inside the accept filter by a gate datagram while 2..6 datagrams, with runs of one remote, are sent back to back, so that they are dispatched from one batch), accept, read, close, close-again (of a connection closed earlier, also after its remote has been given a new one), send-again-after-close; after every send a marker datagram from an always-accepted remote is sent and read back, which (single-threaded FIFO read loop) proves the earlier datagram has been dispatched, so refusals are decidable without sleeping; model: remote -> connection/backlog/queue; oracle: Accept returns the connections in creation order with the right RemoteAddr, every Read returns exactly the next datagram of that remote, byte-identical, nothing on another connection, filtered or overflowing datagrams create nothing (verified at the end: the backlog holds exactly the model's connections), after Close a new datagram creates a fresh connection; non-trivial = >=2 remotes interleaved and at least one of close-then-reconnect, backlog overflow, filter refusal; distinct by hash of config + steps"
 
 func TestC11Sequential(t *testing.T) {
 	r := ev.New("C11", "sequential", ruleC11Seq)
-	r.Essential = []string{"reconnect-after-close", "backlog-overflow", "filter-refusal", "batch/8", "empty-datagram", "burst-in-one-batch"}
+	r.Essential = []string{"reconnect-after-close", "backlog-overflow", "filter-refusal", "batch/8", "empty-datagram", "burst-in-one-batch", "close-again-with-successor"}
 	r.MinForEssential = 300
 	r.Assume("real loopback UDP: the kernel delivers datagrams from one socket to another in order and, at these volumes, without loss")
 	r.Check(t, func(t *rapid.T, c *ev.Case) {
@@ -283,6 +283,16 @@ func TestC11Sequential(t *testing.T) {
 				accept()
 			case op < 88:
 				read(i)
+			case op < 91 && closedConn[i] != nil:
+				// close a connection again that was closed earlier: without effect, in
+				// particular on the connection that the remote has got since
+				_ = closedConn[i].Close()
+				c.Label("close-again")
+				if model[i] != nil {
+					c.Label("close-again-with-successor")
+				}
+				c.Op("close again the old connection of remote %d", i)
+				t.Logf("close again the old connection of remote %d (successor: %v)", i, model[i] != nil)
 			default:
 				m := model[i]
 				if m == nil || !m.accepted {
